@@ -72,6 +72,8 @@ enum Env {
 	/// inner envelope under Cur wrapped in an outer envelope under the given key
 	Nested(KeySel, &'static str),
 	FakeEncPlainParams,
+	/// key exchange inside the channel with its argument as a positional JSON-RPC parameter
+	EncInitPositional,
 	Malformed(&'static str),
 	OddField(&'static str),
 }
@@ -127,6 +129,7 @@ impl Env {
 			Env::SeqForm => "seqform-enc-cur:open_wallet".into(),
 			Env::Nested(k, m) => format!("nested-outer-{:?}:{}", k, m).to_lowercase(),
 			Env::FakeEncPlainParams => "fakeenc-plain-params:open_wallet".into(),
+			Env::EncInitPositional => "enc-cur-positional:init_secure_api".into(),
 			Env::Malformed(k) => format!("malformed:{}", k),
 			Env::OddField(k) => format!("oddfield:{}", k),
 		}
@@ -145,6 +148,7 @@ impl Env {
 		match self {
 			Env::PlainInit => Class::Init,
 			Env::Enc(KeySel::Cur, _) => Class::Auth,
+			Env::EncInitPositional => Class::Auth,
 			Env::Nested(KeySel::Cur, _) => Class::Auth,
 			Env::OddMethod(_) | Env::SeqForm | Env::OddField(_) | Env::BatchEnc(KeySel::Cur) => {
 				Class::Odd
@@ -157,6 +161,7 @@ impl Env {
 		// (needs current key, needs previous key)
 		match self {
 			Env::Enc(KeySel::Cur, _)
+			| Env::EncInitPositional
 			| Env::FlipBody(..)
 			| Env::FlipNonce(..)
 			| Env::OddMethod(_)
@@ -204,6 +209,7 @@ fn alphabet() -> Vec<Env> {
 	a.push(Env::BatchEnc(KeySel::Never));
 	a.push(Env::BatchEnc(KeySel::Cur));
 	a.push(Env::SeqForm);
+	a.push(Env::EncInitPositional);
 	a.push(Env::Nested(KeySel::Cur, "open_wallet"));
 	a.push(Env::Nested(KeySel::Cur, "get_mnemonic"));
 	a.push(Env::Nested(KeySel::Never, "open_wallet"));
@@ -514,6 +520,11 @@ impl Session {
 				let (n, b) = seal(&self.cur?, self.next_nonce(), &call(m));
 				envelope(m, &n, &b)
 			}
+			Env::EncInitPositional => {
+				let inner = json!({"jsonrpc": "2.0", "method": "init_secure_api", "params": [ecdh], "id": 1});
+				let (n, b) = seal(&self.cur?, self.next_nonce(), &inner);
+				envelope("encrypted_request_v3", &n, &b)
+			}
 			Env::BatchPlain(with_init) => {
 				let mut v = vec![];
 				if *with_init {
@@ -817,6 +828,7 @@ impl Session {
 				if let Some(inner) = &decrypted {
 					let m = match e {
 						Env::Enc(KeySel::Cur, m) | Env::OddMethod(m) => *m,
+						Env::EncInitPositional => "init_secure_api",
 						Env::SeqForm | Env::OddField(_) => "open_wallet",
 						_ => "",
 					};
@@ -859,7 +871,7 @@ impl Session {
 			// negotiated key the current one; otherwise the superseded key stays valid.
 			let exchanged = match e {
 				Env::PlainInit => self.gen == gen_for_ecdh,
-				Env::Enc(KeySel::Cur, "init_secure_api") => self.gen == gen_for_ecdh,
+				Env::Enc(KeySel::Cur, "init_secure_api") | Env::EncInitPositional => self.gen == gen_for_ecdh,
 				_ => false,
 			};
 			if exchanged && problem.is_none() {
